@@ -357,7 +357,11 @@ pub fn check_axes_case(ctx: &mut Ctx, rng: &mut Rng, case: u64) {
                 d.i64(s.max as i64);
                 d.dbg(&s.map);
                 d.i64(v as i64);
-                ctx.nontrivial(d.finish());
+                let dg = d.finish();
+                ctx.count("norm_values_strictly_inside_regular_axis", 1);
+                if dg & 0x1f == 0 {
+                    ctx.nontrivial(dg);
+                }
             }
         }
         if !s.map.is_empty() {
